@@ -662,6 +662,51 @@ theorem connInner_inv {srv : Server} (h : WFc srv) (hN : NoLeak srv) (cfg : Conf
   repeat' split
   all_goals first | exact ⟨h, hN⟩ | exact inSession_inv h hN cfg hcn r _
 
+/-- changing fields of connections other than `id` and `sess` -/
+theorem WFc.mapConns {srv : Server} (h : WFc srv) (f : Conn → Conn) (hid : ∀ x, (f x).id = x.id)
+    (hs : ∀ x, (f x).sess = x.sess) : WFc { srv with conns := srv.conns.map f } := by
+  constructor
+  · show ((srv.conns.map f).map (·.id)).Nodup
+    rw [map_map_id _ _ _ fun x _ => hid x]; exact h.connNodup
+  · exact h.sessNodup
+  · exact h.sessLt
+  · exact h.sconnNodup
+  · intro y hy sid hsy
+    obtain ⟨x, hx, rfl⟩ := List.mem_map.mp hy
+    rw [hs] at hsy; rw [hid]
+    exact h.link1 x hx sid hsy
+  · intro ss hss c hc
+    obtain ⟨x, hx, hxid, hxl⟩ := h.link2 ss hss c hc
+    exact ⟨f x, List.mem_map.mpr ⟨x, hx, rfl⟩, by rw [hid]; exact hxid, by rw [hs]; exact hxl⟩
+
+theorem setMode_inv {srv : Server} (h : WFc srv) (hN : NoLeak srv) (c : Nat) (e : Err) :
+    WFc (setMode srv c e) ∧ NoLeak (setMode srv c e) := by
+  cases e with
+  | none => exact ⟨h, hN⟩
+  | fail => exact ⟨h, hN⟩
+  | sw b =>
+    refine ⟨h.mapConns _ ?_ ?_, hN.mono fun x hx => hx⟩
+    · intro x; split <;> rfl
+    · intro x; split <;> rfl
+
+theorem setMode_keeps (srv : Server) (c : Nat) (e : Err) {x : Conn} (hx : x ∈ srv.conns) :
+    ∃ y ∈ (setMode srv c e).conns, y.id = x.id := by
+  cases e with
+  | none => exact ⟨x, hx, rfl⟩
+  | fail => exact ⟨x, hx, rfl⟩
+  | sw b =>
+    refine ⟨_, List.mem_map.mpr ⟨x, hx, rfl⟩, ?_⟩
+    split <;> rfl
+
+theorem nonRequest_inv {srv : Server} (h : WFc srv) (hN : NoLeak srv) (c : Nat) (b : Bool) :
+    WFc (nonRequest srv c b) ∧ NoLeak (nonRequest srv c b) := by
+  unfold nonRequest
+  split
+  · exact ⟨h, hN⟩
+  · split
+    · exact ⟨h, hN⟩
+    · exact closeConn_inv h hN c
+
 theorem handleRequest_inv {srv : Server} (h : WFc srv) (hN : NoLeak srv) (cfg : Config) {cn : Conn}
     (hcn : cn ∈ srv.conns) (r : Request) :
     WFc (handleRequest cfg srv cn r).1 ∧ NoLeak (handleRequest cfg srv cn r).1 := by
@@ -673,7 +718,7 @@ theorem handleRequest_inv {srv : Server} (h : WFc srv) (hN : NoLeak srv) (cfg : 
   dsimp only
   split
   · exact closeConn_inv this.1 this.2 _
-  · exact this
+  · exact setMode_inv this.1 this.2 _ _
 
 theorem stepEv_inv {srv : Server} (h : WFc srv) (hN : NoLeak srv) (cfg : Config) (e : Event) :
     WFc (stepEv cfg srv e).1 ∧ NoLeak (stepEv cfg srv e).1 := by
@@ -685,6 +730,8 @@ theorem stepEv_inv {srv : Server} (h : WFc srv) (hN : NoLeak srv) (cfg : Config)
     | none => exact ⟨h.addConnection c ip hf, hN.mono fun x hx => hx⟩
   | close c => exact closeConn_inv h hN c
   | expire sid => exact ⟨h.endSession sid, hN.endSession sid⟩
+  | frame c => exact nonRequest_inv h hN c true
+  | response c => exact nonRequest_inv h hN c false
   | req c r =>
     simp only [stepEv]
     cases hf : findConn srv c with
@@ -794,7 +841,8 @@ theorem conn_closed_iff_error {srv : Server} (h : WFc srv) (cfg : Config) {cn : 
     · rename_i hf
       simp only [hf] at hnone
       obtain ⟨x, hx, hxid⟩ := hk
-      exact absurd hxid (findConn_none_iff.mp hnone x hx)
+      obtain ⟨y, hy, hyid⟩ := setMode_keeps srv1 cn.id res.err hx
+      exact absurd (hyid.trans hxid) (findConn_none_iff.mp hnone y hy)
   · exact handleRequest_fail_closes cfg srv cn r
 
 end Rtsp.Sess
